@@ -8,7 +8,7 @@ from ..cfg import CFG
 from ..interp import Callee, Frame
 from ..model import AnalysisError, FuncInfo, norm
 from ..prov import Canon, canon, message_param
-from .common import Ctx, fkey
+from .common import Ctx, callee_names, fkey
 from . import tables
 
 NODE_T = "aiomysensors.model.node.Node"
@@ -240,10 +240,12 @@ def guard_mut(ctx: Ctx, chk) -> None:
     chk.rule(rule, "in every handler that refers to a node (child) of the incoming message, every use of gateway.nodes[In.node_id] (.children[In.child_id]) is dominated by the membership test whose failing branch raises MissingNodeError(In.node_id) (MissingChildError(In.child_id)); no registry write precedes the raise")
     I = ctx.I
     n_uses = 0
+    users: set = set()
     for f in tables.all_handler_defs(ctx):
         msg = message_param(f)
         if msg is None:
             continue
+        f0 = f
         # a membership guard extracted into a helper is judged where it is called
         f = ctx.inl(f, lambda h: not h.name.startswith("handle_"))
         cn = Canon(I, f)
@@ -261,6 +263,7 @@ def guard_mut(ctx: Ctx, chk) -> None:
                     continue
                 # creation sites store, they do not load; loads need the guard
                 n_uses += 1
+                users.add(f0.fq)
                 chk.instance(rule)
                 if g is None:
                     g = CFG(f.node)
@@ -298,7 +301,7 @@ def guard_mut(ctx: Ctx, chk) -> None:
                         chk.ok(rule, k, f"{nm}({want})", ctx.loc(f, node), sample=False)
                     else:
                         chk.refute(rule, k, f"`{norm(node)}` names {got}; the error must name the missing {'node' if nm == 'MissingNodeError' else 'child'} ({want})", ctx.loc(f, node))
-    chk.floor(rule, "guarded registry uses", n_uses, 10)
+    chk.floor(rule, "handlers that use a node / child of the incoming message", len(users), 7)
 
 
 def _callers_guard(ctx: Ctx, helper: FuncInfo, base: str, key: str, kind: str):
@@ -443,20 +446,23 @@ def who_reg(ctx: Ctx, chk) -> None:
 def listen1(ctx: Ctx, chk) -> None:
     rule = "LISTEN-1"
     chk.rule(rule, "the listen loop body is one transport.read, one load, one dispatch and one yield of the dispatch result on its single path; every handler returns its message parameter or the awaited result of the next chain element; no handler writes a field of the incoming message")
-    listen = ctx.func("aiomysensors.gateway.Gateway.listen")
+    listen0 = ctx.func("aiomysensors.gateway.Gateway.listen")
+    # private helpers of the gateway (decode step, dispatch step) are analysed where they are called
+    listen = ctx.inl(listen0)
     loops = [n for n in listen.node.body if isinstance(n, ast.While)]
     if len(loops) != 1 or not (isinstance(loops[0].test, ast.Constant) and loops[0].test.value is True):
         raise AnalysisError("LISTEN-1: `while True` loop of Gateway.listen not found")
     lp = loops[0]
+    cnl = Canon(ctx.I, listen, "")
     inner = [n for n in ast.walk(lp)]
-    reads = [n for n in inner if isinstance(n, ast.Call) and norm(n.func) == "self.transport.read"]
-    loads = [n for n in inner if isinstance(n, ast.Call) and isinstance(n.func, ast.Attribute) and n.func.attr == "load"]
+    reads = [n for n in inner if isinstance(n, ast.Call) and cnl.canon(n.func) == "self.transport.read"]
+    loads = [n for n in inner if isinstance(n, ast.Call) and cnl.canon(n.func).endswith("_schema.load")]
     yields = [n for n in inner if isinstance(n, (ast.Yield, ast.YieldFrom))]
     dispatch = tables.dispatch_calls(ctx, listen, tables.DISPATCH, within=lp)
     nested_loops = [n for n in inner if isinstance(n, (ast.For, ast.While, ast.AsyncFor)) and n is not lp]
     conds = [n for n in lp.body if isinstance(n, ast.If)]
     chk.instance(rule)
-    key = f"{listen.fq}::loop-shape"
+    key = f"{listen0.fq}::loop-shape"
     problems = []
     if len(reads) != 1:
         problems.append(f"{len(reads)} transport reads per iteration")
@@ -469,27 +475,58 @@ def listen1(ctx: Ctx, chk) -> None:
     if nested_loops or conds:
         problems.append("loop body is not a single straight path")
     if not problems:
-        # yield value is the dispatch result, which got the loaded message
-        y = yields[0]
-        d = dispatch[0]
-        par = ctx.prog.parents.get(ctx.prog.parents.get(d))  # Await -> Assign
-        yname = norm(y.value) if y.value is not None else ""
-        if not (isinstance(par, ast.Assign) and norm(par.targets[0]) == yname):
+        from .common import reaching_defs
+
+        g = CFG(listen.node)
+
+        def strip(e):
+            return e.value if isinstance(e, ast.Await) else e
+
+        def flows_from(user: ast.AST, e: ast.expr | None, producer: ast.Call) -> bool:
+            """The value of expression e (evaluated in the statement containing `user`) is the result of `producer`:
+            e is that call, or a local whose only reaching definition is an assignment of it."""
+            if e is None:
+                return False
+            e = strip(e)
+            if e is producer:
+                return True
+            if isinstance(e, ast.Name):
+                at = g.nodes_where(lambda x: x.contains(user))
+                if not at:
+                    return False
+                ds = reaching_defs(g, e.id, at[0])
+                if len(ds) == 1 and isinstance(ds[0].ast, (ast.Assign, ast.AnnAssign)) and ds[0].ast.value is not None:
+                    v = strip(ds[0].ast.value)
+                    if v is producer:
+                        return True
+                    if isinstance(v, ast.Name):
+                        return flows_from(ds[0].ast, v, producer)
+            return False
+
+        y, d, ld, rdc = yields[0], dispatch[0], loads[0], reads[0]
+        if not flows_from(y, y.value, d):
             problems.append("the yielded value is not the dispatch result")
-        ld = loads[0]
-        lpar = ctx.prog.parents.get(ld)
-        if not (isinstance(lpar, ast.Assign) and len(d.args) >= 2 and norm(d.args[1]) == norm(lpar.targets[0])):
+        if not (len(d.args) >= 2 and flows_from(d, d.args[1], ld)):
             problems.append("the dispatched message is not the decoded line")
-        rd = ctx.prog.parents.get(ctx.prog.parents.get(reads[0]))
-        if not (isinstance(rd, ast.Assign) and ld.args and norm(ld.args[0]) == norm(rd.targets[0])):
+        if not (ld.args and flows_from(ld, ld.args[0], rdc)):
             problems.append("the decoded text is not the line just read")
-        order = [reads[0].lineno, ld.lineno, d.lineno, y.lineno]
-        if order != sorted(order):
-            problems.append("read/load/dispatch/yield are out of order")
+        # the protocol whose handlers are used is the gateway's protocol at this very step, not a remembered one
+        getter_calls = [c for c in inner if isinstance(c, ast.Call) and tables.DISPATCH in callee_names(ctx, listen, c)]
+        for gc in getter_calls:
+            a0 = gc.args[0] if gc.args else None
+            names = [x for x in ast.walk(a0) if isinstance(x, ast.Name) and x.id != "self"] if a0 is not None else []
+            outside = []
+            for nm in names:
+                at = g.nodes_where(lambda x: x.contains(gc))
+                for dnode in reaching_defs(g, nm.id, at[0]) if at else []:
+                    if not any(x is dnode.ast for x in inner):
+                        outside.append(nm.id)
+            if a0 is None or cnl.canon(a0) not in ("self.protocol", "self._protocol") or outside:
+                problems.append(f"the handlers are looked up in `{norm(a0) if a0 is not None else '?'}`{' (bound before the loop)' if outside else ''}, not in the gateway's protocol of this step: a version learnt while listening is ignored")
     if problems:
-        chk.refute(rule, key, "; ".join(problems), ctx.loc(listen, lp))
+        chk.refute(rule, key, "; ".join(problems), ctx.loc(listen0, lp))
     else:
-        chk.ok(rule, key, "read -> load -> dispatch -> yield, once each, in order", ctx.loc(listen, lp))
+        chk.ok(rule, key, "read -> load -> dispatch -> yield, once each, each value flowing into the next", ctx.loc(listen0, lp))
     # handler return values and message immutability
     n = 0
     for f in tables.all_handler_defs(ctx, include_wrappers=True):
